@@ -7,6 +7,7 @@ import (
 	"fmt"
 	"io"
 	"io/fs"
+	"math"
 	"os"
 	"path/filepath"
 	"runtime"
@@ -25,6 +26,7 @@ const (
 	basePadSectors         sizeSectors = 0x20
 	maxDirEntrySize        sizeBytes   = 0xFF // record length is stored in one byte
 	volumeDescriptorsCount sizeSectors = 3
+	maxFilesSectors        sizeSectors = math.MaxInt32 - 1<<24
 
 	dotEntryIdentifier    = stringD1(byte(0))
 	dotDotEntryIdentifier = stringD1(byte(1))
@@ -266,6 +268,12 @@ func (viso *VirtualISO) scanDirectory() error {
 				size:    sizeBytes(itemStat.Size()),
 				rLBA:    viso.filesSizeSectors,
 				modTime: itemStat.ModTime(),
+			}
+
+			// Sector numbers have 32 bits in the image and are signed here: more data can not be addressed.
+			// Some room is left for structures placed before files and for padding.
+			if fi.size > maxFilesSectors.bytes() || viso.filesSizeSectors > maxFilesSectors-fi.size.sectors() {
+				return fmt.Errorf("item %s: content of directory is too large for an image", fullPath)
 			}
 
 			dirItem.files = append(dirItem.files, fi)
